@@ -694,6 +694,45 @@ func TestVerifC06(t *testing.T) {
 		}
 	}
 	c06Namespace(t, out)
+	c06RefusedRegistration(t, out)
+}
+
+// c06RefusedRegistration: a token creation whose LEASE REGISTRATION is refused for a reason other than a storage
+// fault — the creation path of a token role whose name contains ".." ("rel..1" is a legal role name) is turned down by
+// the expiration manager — after the token store has already written the token. "…whose lease registration fails
+// leaves no usable token behind": the caller-chosen id must not be a token afterwards. `rel.1` is the control.
+// Op line: regrefused <role> => <class>|token:<none|usable|stored>
+func c06RefusedRegistration(t *testing.T, out *vh.Out) {
+	e := c06NewEnv(t)
+	c, root := e.c, e.root
+	for i, role := range []string{"rel.1", "rel..1"} {
+		if cl, _ := vhReq(c, logical.UpdateOperation, "auth/token/roles/"+role, root, map[string]any{"orphan": true}); cl != "ok" {
+			t.Fatalf("role %s: %s", role, cl)
+		}
+		id := fmt.Sprintf("c06-chosen-id-%d", i)
+		cl, resp := vhReq(c, logical.UpdateOperation, "auth/token/create/"+role, root, map[string]any{"id": id})
+		handed := resp != nil && resp.Auth != nil && resp.Auth.ClientToken != ""
+		state := "none"
+		if ucl, _ := vhReq(c, logical.ReadOperation, "sys/mounts", id, nil); ucl == "ok" {
+			state = "usable"
+		} else if te, _ := c.tokenStore.lookupInternal(vhRootCtx(), id, false, true); te != nil {
+			state = "stored"
+		}
+		res := "refused"
+		if cl == "ok" && handed {
+			res = "ok"
+		}
+		line := fmt.Sprintf("%s|token:%s", res, state)
+		if res == "refused" && state == "usable" {
+			line += "!VIOL:the token creation through role " + role + " was answered with an error (its lease registration was refused) but the caller-chosen token id is a usable token afterwards#C06:token-usable-after-refused-registration"
+		}
+		if res == "ok" {
+			state = "usable" // (handed out with its lease: the control)
+			line = "ok|token:usable"
+		}
+		out.Op(line, "regrefused", role)
+	}
+	_ = c.Shutdown()
 }
 
 // c06Namespace: the secret / wrap / login / create flows inside a CHILD namespace (secrets engine, credential backend,
